@@ -513,9 +513,14 @@ func (i *IfUnless) Evaluation(
 
 			i.ifNarrowTs = make(map[string][]base.T)
 
-			_, err := i.getBackupContext(e, *p, ctx)
+			elsifZaoriks, err := i.getBackupContext(e, *p, ctx)
 			if err != nil {
 				p.Fatal(ctx, err)
+			}
+
+			// what the elsif condition narrowed is restored at the end as well
+			for _, zaorik := range elsifZaoriks {
+				defer zaorik()
 			}
 
 			resultTs = append(resultTs, p.GetLastEvaluatedT())
